@@ -181,6 +181,7 @@ impl Prop for C13 {
       s.count("with_suggest");
     }
 
+    let mut rankings: std::collections::HashMap<String, Option<Vec<(String, f32)>>> = std::collections::HashMap::new();
     for (name, r, cursor) in variants {
       let v = match run(&built.reader, &r) {
         Ok(v) => v,
@@ -205,13 +206,15 @@ impl Prop for C13 {
       // ---------------- correspondence ----------------
       let mut rk = ranking_req(&json!({"query": case["query"], "filter": case["filter"], "req": {"execution": r["execution"], "explain": r["explain"]}}), &r["sort"]);
       rk["limit"] = json!(ALL);
-      let ranking = match run(&built.reader, &rk) {
-        Ok(x) => x,
-        Err(_) => continue,
-      };
-      let scores = match raw_scores(&built.reader, &rk, &ranking) {
-        Ok(x) => x,
-        Err(_) => continue,
+      // one ranking run per distinct (sort, execution, explain) of the case, not per variant
+      let rk_key = rk.to_string();
+      if !rankings.contains_key(&rk_key) {
+        let sc = run(&built.reader, &rk).ok().and_then(|ranking| raw_scores(&built.reader, &rk, &ranking).ok());
+        rankings.insert(rk_key.clone(), sc);
+      }
+      let scores = match rankings.get(&rk_key).cloned().flatten() {
+        Some(x) => x,
+        None => continue,
       };
       let cur = cursor.as_ref().map(|(id, sc, n)| (id.as_str(), *sc, *n));
       let mut mr = model_req(&r, &lay, model_hits(&lay, &scores, None), cur, false);
